@@ -36,6 +36,9 @@ def PyErr.tag : PyErr → String
   | .keyErr => "KeyError" | .overflowErr => "OverflowError" | .typeErr => "TypeError"
   | .assertErr => "AssertionError" | .runtimeErr => "RuntimeError" | .other => "other"
 
+/-- `if cond: raise e` as one statement of a `do` block -/
+def guardPy (cond : Bool) (e : PyErr) : Py Unit := if cond then throw e else pure ()
+
 /-- Python `bs[i]` for `i ≥ 0`. -/
 def idx (bs : Bytes) (i : Nat) : Py UInt8 :=
   match bs[i]? with
